@@ -167,8 +167,6 @@ func (h *killedHandler) handleRestart() {
 	} else {
 		h.ctx.restarting = nil
 		atomic.StoreInt32(&h.ctx.state, running)
-		// 重启后的 OnLaunch 应投递给被重启的 Actor 自身（发送者为父 Actor，与 ActorOf 保持一致），而非其父 Actor
-		h.ctx.mailbox.Enqueue(mailbox.NewEnvelop(true, h.ctx.parent, h.ctx.ref, new(vivid.OnLaunch)))
 		h.ctx.mailbox.Resume()
 
 		// 通知事件流
@@ -181,5 +179,10 @@ func (h *killedHandler) handleRestart() {
 			ActorRef: h.ctx.ref,
 			Type:     reflect.TypeOf(h.ctx.actor),
 		})
+
+		// 重启后的 OnLaunch 应投递给被重启的 Actor 自身（发送者为父 Actor，与 ActorOf 保持一致），而非其父 Actor。
+		// 此处正处于该 Actor 自身的消息处理过程中，直接同步处理，保证新实例收到的第一条消息一定是 OnLaunch；
+		// 若经由邮箱投递，已在系统队列中排队的消息（例如紧随其后的又一次重启或终止）会先于 OnLaunch 被新实例处理。
+		h.ctx.HandleEnvelop(mailbox.NewEnvelop(true, h.ctx.parent, h.ctx.ref, new(vivid.OnLaunch)))
 	}
 }
